@@ -115,9 +115,50 @@ func (c *Ctx) findGuard(fn *ssa.Function, input *ssa.Parameter) *guardInfo {
 		} else {
 			gi.errBlk, gi.okBlk = b.Succs[1], b.Succs[0]
 		}
+		// the conjunction written the other way round (`l > Max && Max != 0`): the too-long edge leads to the
+		// "limit is on" test, whose true edge rejects and whose false edge joins the continuation
+		if eb, ok2 := nonZeroTestBlock(gi.errBlk, g); ok2 && len(gi.errBlk.Preds) == 1 {
+			other := gi.errBlk.Succs[0]
+			if other == eb {
+				other = gi.errBlk.Succs[1]
+			}
+			if other == gi.okBlk {
+				gi.errBlk = eb
+			}
+		}
 		return gi
 	}
 	return nil
+}
+
+// nonZeroTestBlock: b consists of a test `g != 0` / `g > 0` (or the complements) and branches on it; returns the
+// successor taken when g is not zero.
+func nonZeroTestBlock(b *ssa.BasicBlock, g *ssa.Global) (*ssa.BasicBlock, bool) {
+	iff, ok := b.Instrs[len(b.Instrs)-1].(*ssa.If)
+	if !ok {
+		return nil, false
+	}
+	cond, ok := iff.Cond.(*ssa.BinOp)
+	if !ok || globalLoad(cond.X) != g {
+		return nil, false
+	}
+	if k, isK := constInt(cond.Y); !isK || k != 0 {
+		return nil, false
+	}
+	for _, in := range b.Instrs[:len(b.Instrs)-1] { // nothing but the load and the comparison
+		switch in.(type) {
+		case *ssa.UnOp, *ssa.BinOp:
+		default:
+			return nil, false
+		}
+	}
+	switch cond.Op {
+	case token.NEQ, token.GTR:
+		return b.Succs[0], true
+	case token.EQL, token.LEQ:
+		return b.Succs[1], true
+	}
+	return nil, false
 }
 
 // isWork reports whether instruction in is "work on the input": an index/slice of an alias of the input,
